@@ -138,6 +138,23 @@ Fixpoint coalesce (prev : trange) (mn mx : Z) (l : list trange) : Z * Z :=
 Definition window (l : list trange) : Z * Z :=
   match l with [] => (MaxInt64, MinInt64) | r0 :: r => coalesce r0 (fst r0) (snd r0) r end.
 
+(** the body of the per-key loop of indirectIndex.DeleteRange once [keys[0]] equals the index key:
+    returns whether the key goes to [fullKeys] (and [keys[0]] is consumed) and the new pending
+    tombstone map.  Every [continue] of the Go loop is the [false] result. *)
+Definition dr_key (old upd : tombs) (ik : ikey) (lo hi : Z) : bool * tombs :=
+  match ik_ents ik with
+  | [] => (false, upd)
+  | e0 :: _ =>
+      let mn := emin e0 in let mx := last_max ik in
+      if (lo >? mx)%Z || (hi <? mn)%Z then (false, upd)
+      else if (lo <=? mn)%Z && (mx <=? hi)%Z then (true, upd)
+      else
+        let newTs := sort_tr (tomb_get (ik_key ik) old ++ tomb_get (ik_key ik) upd ++ [(lo, hi)]) in
+        let upd' := tomb_set (ik_key ik) newTs upd in
+        let '(wmn, wmx) := window newTs in
+        ((wmn <=? mn)%Z && (mx <=? wmx)%Z, upd')
+  end.
+
 (** the per-key loop of indirectIndex.DeleteRange: returns fullKeys and the new tombstone map entries *)
 Fixpoint dr_walk (old : tombs) (l : list ikey) (ks : list key) (lo hi : Z)
          (full : list key) (upd : tombs) : list key * tombs :=
@@ -151,20 +168,10 @@ Fixpoint dr_walk (old : tombs) (l : list ikey) (ks : list key) (lo hi : Z)
           | [] => (full, upd)
           | k1 :: ks2 =>
               if kltb (ik_key ik) k1 then dr_walk old l' (k1 :: ks2) lo hi full upd
-              else match ik_ents ik with
-              | [] => dr_walk old l' (k1 :: ks2) lo hi full upd
-              | e0 :: _ =>
-                  let mn := emin e0 in let mx := last_max ik in
-                  if (lo >? mx)%Z || (hi <? mn)%Z then dr_walk old l' (k1 :: ks2) lo hi full upd
-                  else if (lo <=? mn)%Z && (mx <=? hi)%Z then dr_walk old l' ks2 lo hi (full ++ [k1]) upd
-                  else
-                    let newTs := sort_tr (tomb_get (ik_key ik) old ++ tomb_get (ik_key ik) upd ++ [(lo, hi)]) in
-                    let upd' := tomb_set (ik_key ik) newTs upd in
-                    let '(wmn, wmx) := window newTs in
-                    if (wmn <=? mn)%Z && (mx <=? wmx)%Z
-                    then dr_walk old l' ks2 lo hi (full ++ [k1]) upd'
-                    else dr_walk old l' (k1 :: ks2) lo hi full upd'
-              end
+              else
+                let '(isfull, upd') := dr_key old upd ik lo hi in
+                if isfull then dr_walk old l' ks2 lo hi (full ++ [k1]) upd'
+                else dr_walk old l' (k1 :: ks2) lo hi full upd'
           end
       end
   end.
